@@ -48,6 +48,12 @@ C01_INNERS = lambda rng: [
 POS_INNERS = [mk("sma", ECHO, [2]), mk("ema", ECHO, [3]), mk("max", ECHO, [2]), mk("alma", ECHO, [3])]
 
 
+def raw_any_inners(rng):
+    """inner views whose output is positive for every raw input in [-11, 11] (incl. exact zeros and negative values)"""
+    return [("add", ECHO, ("const", F(12))), mk("gte", ECHO, [F(rng.randint(1, 8), 4)]),
+            mk("sma", ("add", ECHO, ("const", F(12))), [rng.randint(1, 3)]), ("add", ("tanh", ECHO), ("const", F(2)))]
+
+
 def jobs_C01(rng, tier):
     js = []
     reps = scale_n(tier, 2, 12)
@@ -73,6 +79,12 @@ def jobs_C01(rng, tier):
         for inner in rng.sample(inners, min(len(inners), scale_n(tier, 3, 6))):
             fam, xs = gen.gen_stream(rng, rng.randint(14, 30), 3, positive=pos or gen.needs_positive(inner))
             js.append(Decomp(outer, inner, xs))
+        if pos:
+            # a wrapper with a restricted domain over an inner view that maps ANY raw input into that domain: the raw stream
+            # may then contain zeros and negative values (seed C01d: LnReturn skipped exact-zero raw inputs)
+            for inner in raw_any_inners(rng):
+                fam, xs = gen.gen_stream(rng, rng.randint(14, 30), 3, families=["zeros", "ints", "ties", "dyadic8", "sawtooth"])
+                js.append(Decomp(outer, inner, xs))
     # (b) binary combinators: value iff both children have one, and equal to the pointwise result
     for _ in range(scale_n(tier, 40, 400)):
         op = rng.choice(gen.BINOPS)
@@ -115,6 +127,10 @@ C02_VIEWS = ["sma", "cum", "min", "max", "wo", "hln", "roc", "bent", "vst", "vsc
 def jobs_spec_views(rng, tier, names, quick=14, thorough=150, nmax=8, minn=None, only_some=(), fams=None, acc=("wo", "wroll"),
                     fmode=True, length=None, big_exact=True):
     js = []
+    if fams and "tiny" not in fams:
+        # ordinary shapes in units of 2^-40 and 2^30: an absolute threshold (epsilon, 1e-10, ...) in a view shows up there
+        # (wave-4 seed C13d: WelfordRolling reported 0 while n·sigma² <= epsilon)
+        fams = list(fams) + ["tiny", "huge"]
     for nm in names:
         for _ in range(scale_n(tier, quick, thorough)):
             e = gen.gen_unary(rng, ECHO, nmax, [nm])
@@ -148,6 +164,11 @@ def jobs_spec_views(rng, tier, names, quick=14, thorough=150, nmax=8, minn=None,
                 inner = rng.choice([mk("sma", ECHO, [rng.randint(2, 6)]), mk("ema", ECHO, [rng.randint(2, 5)]), mk("max", ECHO, [rng.randint(2, 4)])])
             fam, xs = gen.gen_stream(rng, gen.window_of(e) + gen.window_of(inner) + rng.randint(8, 24), gen.window_of(e), positive=True,
                                      families=["dyadic8", "rampup", "rampdown", "spike", "sawtooth", "decimal"])
+            if rng.random() < 0.35:
+                # raw streams with zeros / negative values under an inner view that maps them into the outer view's domain
+                inner = rng.choice(raw_any_inners(rng))
+                fam, xs = gen.gen_stream(rng, gen.window_of(e) + rng.randint(10, 26), gen.window_of(e),
+                                         families=["zeros", "ints", "ties", "dyadic8", "sawtooth"])
             js.append(Decomp(e, inner, xs))
     return js
 
@@ -160,6 +181,8 @@ def jobs_C02(rng, tier):
             e = mk(nm, ECHO, [n])
             fam, xs = stream_for(rng, e, 60)
             js.append(SpecEq(e, xs, acc=nm in ("wo",)))
+    js += long_suffix_jobs(rng, tier, C02_VIEWS)
+    js += outlier_jobs(rng, tier, C02_VIEWS)
     return js
 
 
@@ -201,6 +224,77 @@ def jobs_C03(rng, tier):
             js.append(Relation("suffix", e, [p1 + suffix, p2 + suffix], dict(K=K)))
             fam, xs = stream_for(rng, e, 3 * n + 6)
             js += both_mode_corr(e, xs, n=n)[1:]
+    js += long_suffix_jobs(rng, tier, C03_VIEWS + ["pfe"])
+    js += outlier_jobs(rng, tier, C03_VIEWS + ["pfe"])
+    return js
+
+
+def long_suffix_jobs(rng, tier, names):
+    """"over exactly the last N values", however long the stream has been running: a history of 10^3 ... 10^5 values and a
+    short history that ends in the same K values must give the same output (wave-4 seeds C03d / C05d: a periodic
+    "re-synchronisation" of running sums every 4096 / 65536 values that rebuilt them from the wrong boundary).  The long run is
+    done in f64 (compared with a tolerance) for every view and length, and in exact arithmetic for a few."""
+    js = []
+    lengths = [1030, 4100, 65540] + ([131080, 262150] if tier == "thorough" else [])
+    exact = set(rng.sample(names, min(len(names), 3 if tier == "quick" else len(names))))
+    for nm in names:
+        for L0 in lengths:
+            if nm == "pfe":
+                n, m = rng.randint(3, 6), rng.randint(1, 4)
+                e = ("pfe", ECHO, mk("sma", ECHO, [m]), n)
+                K = c03_K(nm, n, m)
+            else:
+                n = rng.choice([1, 2, 3, 4, 5, 7, 16, 33])
+                n = max(n, gen.CATALOGUE[nm]["minN"])
+                e = mk(nm, ECHO, gen.gen_params(rng, nm, 7, n=n))
+                K = c03_K(nm, n)
+            L = L0 + rng.randint(0, 2 * n + 3)
+            period = rng.choice([11, 37, 350])
+            pos = nm in ("roc", "cog")
+            base = [F(rng.randint(1, 128) if pos else rng.randint(-64, 64), 8) for _ in range(period)]
+            xs = [base[t % period] + F(t % 7, 16) + F((t // 1000) % 3, 4) for t in range(L)]
+            suffix = xs[-(K + rng.randint(0, 3)):]
+            if nm == "myrsi" and len(set(suffix[-K:])) == 1:
+                continue
+            short = [F(rng.randint(1, 9))] * rng.randint(0, 3) + suffix
+            cheap = nm in ("sma", "cum", "min", "max", "rsi", "myrsi", "roc", "bent", "hln")   # exact cost per step does not grow
+            modes = ["f"] + (["q"] if nm in exact and n <= 7 and L0 <= (65540 if cheap else 4100) else [])
+            for mode in modes:
+                js.append(Relation("suffix", e, [xs, short], dict(K=K, tol=1e-7 if mode == "f" else None, scale=16), mode=mode))
+    return js
+
+
+RESIDUE_FREE = ["min", "max", "roc", "hln", "bent", "cog", "cti", "net", "pfe"]
+
+
+def outlier_jobs(rng, tier, names, reps=None):
+    """f64: "a value that has left the window can never again influence any output" for the views that recompute their answer
+    from the window (no running sums): a value 10^12 ... 10^17 times larger than the rest passes through the window; once it
+    has left, the output must again be (to 1e-6 of the output's scale) what a history without it gives.  A view of this list
+    that is rewritten to maintain running sums incrementally keeps the rounding residue of the outlier for ever (wave-4
+    seeds C06d, C11d; in exact arithmetic such a rewrite is invisible).  The views that DO maintain running sums in the
+    unchanged crate (Sma, Cumulative, WelfordOnline, Vst, Vsct, Alma, Rsi, MyRSI) are not in this list: their residue is
+    recorded under C16 (K3)."""
+    js = []
+    for nm in names:
+        if nm not in RESIDUE_FREE:
+            continue
+        for _ in range(reps or scale_n(tier, 4, 30)):
+            if nm == "pfe":
+                n = rng.randint(3, 9)
+                e = ("pfe", ECHO, ECHO, n)
+                K = n
+            else:
+                n = max(rng.choice([2, 3, 5, 8, 16]), gen.CATALOGUE[nm]["minN"])
+                e = mk(nm, ECHO, gen.gen_params(rng, nm, 7, n=n))
+                K = c03_K(nm, n)
+            big = F(10) ** rng.choice([12, 15, 16, 17])
+            val = lambda: F(float(F(rng.randint(100, 20000), 100)))
+            sign = 1 if nm in ("roc", "cog") else rng.choice([1, -1])
+            pre = [val() for _ in range(rng.randint(n, 3 * n))] + [val() * big * sign] + [val() for _ in range(rng.randint(0, n))]
+            suffix = [val() for _ in range(K + rng.randint(1, n + 2))]
+            short = [val() for _ in range(rng.randint(1, 4))]
+            js.append(Relation("suffix", e, [pre + suffix, short + suffix], dict(K=K, tol=1e-6, scale=200), mode="f"))
     return js
 
 
@@ -231,6 +325,7 @@ def jobs_C04(rng, tier):
         js.append(SpecEq(mk("ema", ECHO, [n]), xs))
         xs2 = [F(2), F(-2)] + gen.stream(rng, "ints", 2 * n + 4)   # w=1/2 makes the state hit exactly 0
         js.append(SpecEq(mk("ema", ECHO, [3]), xs2))
+    js += long_suffix_jobs(rng, tier, ["sma", "alma"])
     return js
 
 
@@ -262,6 +357,7 @@ def jobs_C05(rng, tier):
             js.append(Relation("value", mk("myrsi", ECHO, [n]), [up], dict(value=F(1), **{"from": n})))
             js.append(Relation("value", mk("rsi", ECHO, [n]), [dn], dict(value=F(0), **{"from": n + 1})))
             js.append(Relation("value", mk("myrsi", ECHO, [n]), [dn], dict(value=F(-1), **{"from": n})))
+    js += long_suffix_jobs(rng, tier, ["rsi", "myrsi"])
     return js
 
 
@@ -287,6 +383,8 @@ def jobs_C06(rng, tier):
         js.append(Relation("same", mk("net", ECHO, [n]), [xs, [f(x) for x in xs]], dict(map="id")))
         c = F(rng.choice([-5, -1, 1, 3, 7]), 2)
         js.append(Relation("value", mk("cog", ECHO, [n]), [[c] * (2 * n + 3)], dict(value=F(0))))
+    js += long_suffix_jobs(rng, tier, ["cti", "net", "cog"])
+    js += outlier_jobs(rng, tier, ["cti", "net", "cog"], reps=scale_n(tier, 8, 40))
     return js
 
 
@@ -369,6 +467,12 @@ def jobs_C08(rng, tier):
             js.append(Relation("ready", e, [xs], ps))
             js.append(Relation("ready", e, [xs], {}, mode="f"))
             js.append(Corr(e, "f", xs_ops("f", xs), "pattern", n=n))
+            # the same claim for the f32 instance (a threshold or constant that is only representable in f64 — seed C08d:
+            # `T::from(1e-300)` is 0 at f32): small dyadic values are exact in f32, windows that sum / cancel to exactly zero
+            fam, xs32 = stream_for(rng, e, 3 * n + 10, families=["zeros", "ints", "ties", "sawtooth", "dyadic8", "flat_after_volatile"])
+            if nm == "roc":
+                xs32 = [x if x != 0 else F(1, 2) for x in xs32]
+            js.append(Relation("ready", e, [xs32], dict(ps), mode="s"))
     for _ in range(R * 2):
         js.append(Relation("ready", ("tanh", ECHO), [gen.gen_stream(rng, 8)[1]], dict(first=1)))
         n = rng.randint(3, 6)
@@ -577,6 +681,7 @@ def jobs_C11(rng, tier):
         fam, xs = gen.gen_stream(rng, 3 * n + 10, n)
         js.append(SpecEq(e, xs))
         js += both_mode_corr(e, xs, n=n)
+    js += outlier_jobs(rng, tier, ["pfe"], reps=scale_n(tier, 12, 60))
     return js
 
 
@@ -720,6 +825,16 @@ def jobs_C14(rng, tier):
         fam, ys = gen.gen_stream(rng, rng.randint(8, 24), 3, positive=True)
         js.append(Relation("binop", (op, child, b), [ys, ys, ys], dict(op=op, domain_ok=True), mode="f", es=[(op, child, b), child, b]))
         js.append(Corr((op, child, b), "f", xs_ops("f", ys), "pattern"))
+        # extreme units (seed C14d: Divide replaced divisors below T::epsilon()): the four operations on children whose
+        # outputs are in units of 2^-70 ... 2^-500 / 2^70, against IEEE arithmetic done here, bit for bit
+        unit = F(2) ** rng.choice([-70, -70, -120, -500, 70, -52, -53, -60])
+        cz = F(rng.choice([-5, -3, -1, 1, 2, 7])) * unit
+        kids = [ECHO, ("const", cz), mk("gte", ECHO, [cz]), mk("lte", ECHO, [cz]), mk("sma", ECHO, [2]), mk("max", ECHO, [2])]
+        op2 = rng.choice(gen.BINOPS)
+        a2, b2 = rng.choice(kids), rng.choice(kids)
+        zs = [F(rng.choice([-9, -4, -3, -1, 1, 2, 3, 5, 8])) * unit for _ in range(rng.randint(6, 14))]
+        if unit < 1 or op2 != "mul":
+            js.append(Relation("binop", (op2, a2, b2), [zs, zs, zs], dict(op=op2, domain_ok=True), mode="f", es=[(op2, a2, b2), a2, b2]))
         # value-level correspondence on trees made of combinators and leaves only
         pe = gen.gen_pure_tree(rng, rng.randint(1, 3))
         js.append(Corr(pe, "f", xs_ops("f", ys), "f64"))
@@ -764,6 +879,8 @@ def jobs_C15(rng, tier):
                     js.append(NoPanic(e, "f", ops_for(xs)))
                     if rng.random() < 0.3:
                         js.append(Corr(e, "f", ops_for(xs), "pattern", both_builds=True))
+                    if rng.random() < 0.35 and all(abs(x) < 4096 and x.denominator <= 1024 for x in xs):
+                        js.append(NoPanic(e, "s", ops_for(xs)))   # the f32 instance, on values that are exact in f32
     # two-level chains
     for _ in range(scale_n(tier, 150, 1500)):
         e = gen.gen_tree(rng, 2, False)
@@ -1001,6 +1118,29 @@ def jobs_C16(rng, tier):
                 sk = dict(vst="value", roc=100.0, cog=float(n))[sk]
             # ema is a recursive average: it has not converged after N+1 values even exactly; compared with the exact result anyway
             js.append(FpTrack(e, vol + flat, 1e-4, sk, fam="flat_after_volatile", flat_from=k + n))
+    # the same for two-level chains: a normaliser / order statistic over an averaging or extremum view.  After a volatile
+    # stretch of generic 53-bit values and a flat stretch longer than both windows the inner view must hand the outer one a
+    # CONSTANT sequence (its rounding residue may be non-zero but must not change from step to step), otherwise the outer view
+    # amplifies a few ulps to a full-scale answer (wave-4 seed C16d: Sma re-summed its window every N updates; HLNormalizer
+    # over it reported +-1 on a flat window).  Outer views whose own running sums already keep residue in the unchanged crate
+    # (Rsi, MyRSI, Vst: K3) are not used here.
+    for _ in range(scale_n(tier, 60, 600)):
+        o = rng.choice(["hln", "net", "cti", "vsct", "wo", "bent", "cog", "min", "max", "roc"])
+        i = rng.choice(["sma", "alma", "cum", "min", "max", "hln"] + ([] if o == "roc" else ["wo"]))
+        ni, no = rng.randint(2, 8), rng.randint(2, 8)
+        e = mk(o, mk(i, ECHO, gen.gen_params(rng, i, 8, n=ni)), gen.gen_params(rng, o, 8, n=no))
+        k = rng.randint(5, 40)
+        dc = lambda: F(float(F(rng.randint(-2000, 2000), 10 ** rng.choice([1, 1, 2, 3])) * rng.choice([1, 1, 1, 100])))
+        vol = [dc() for _ in range(k)]
+        c = F(float(rng.choice([F(3, 10), F(7, 10), F(1001, 10), F(1234, 100), dc()])))
+        if o in ("cog", "roc"):
+            vol = [abs(v) + F(1, 8) for v in vol]
+            c = abs(c) + F(1, 8)
+        flat = [c] * (ni + no + 1 + rng.randint(0, 2 * ni + 2))
+        sk = C16_SCALE[o]
+        if sk in ("vst", "roc", "cog"):
+            sk = dict(vst="value", roc=100.0, cog=float(no))[sk]
+        js.append(FpTrack(e, vol + flat, 1e-4, sk, fam="chain_flat_after_volatile", flat_from=k + ni + no))
     return js
 
 
